@@ -49,6 +49,7 @@ type decFacts struct {
 	msrMarkRead          string // … markRead
 	msrUnwind            string // … unwindStack
 	msrReadMessage       string // … readMessage
+	byteFuncs            string // read.go peekRead / readVarInt / readNewBytes, discard.go discardN, message_reader.go runFunc / readMessageHeader / readMessageV2
 }
 
 // decExtractor carries the file set that the renderer needs and the names declared in the function being read.
@@ -521,6 +522,27 @@ func extractDecoder(repo, root string) error {
 
 	// last: the skeleton rewrites the function it renders
 	facts.msrReadMessage = d.skeleton(msrReadMessage)
+	var bf2 []string
+	addSk := func(f *ast.File, recv, name string) {
+		if fd := decFunc(f, recv, name); fd != nil {
+			nz.normalise(fd)
+			bf2 = append(bf2, name+" "+d.skeleton(fd))
+		} else {
+			bf2 = append(bf2, name+" ?")
+		}
+	}
+	if rdf, err := parse("read.go"); err == nil {
+		addSk(rdf, "", "peekRead")
+		addSk(rdf, "", "readVarInt")
+		addSk(rdf, "", "readNewBytes")
+	}
+	if dcf, err := parse("discard.go"); err == nil {
+		addSk(dcf, "", "discardN")
+	}
+	addSk(mf, "messageSetReader", "runFunc")
+	addSk(mf, "messageSetReader", "readMessageHeader")
+	addSk(mf, "messageSetReader", "readMessageV2")
+	facts.byteFuncs = strings.Join(bf2, " ;; ")
 
 	return os.WriteFile(filepath.Join(root, "lean/KafkaVerif/Gen/DecoderFacts.lean"), []byte(facts.lean()), 0o644)
 }
@@ -1118,7 +1140,7 @@ func (f *decFacts) lean() string {
 		"emptyWhenHwmEqOffset : Bool", "closeStoresOffset : Bool", "oorSeeksConn : Bool",
 		"firstOffsetConst : Int", "lastOffsetConst : Int", "initResolve : String", "initSeeksResolved : Bool",
 		"runResetsAttempt : Bool", "runErrcountInc : Bool", "loopBranches : String", "v1Loop : String",
-		"msrMarkRead : String", "msrUnwind : String", "msrReadMessage : String",
+		"msrMarkRead : String", "msrUnwind : String", "msrReadMessage : String", "byteFuncs : String",
 	} {
 		b.WriteString("  " + fld + "\n")
 	}
@@ -1153,6 +1175,7 @@ func (f *decFacts) lean() string {
 		"msrMarkRead := " + decLeanString(f.msrMarkRead),
 		"msrUnwind := " + decLeanString(f.msrUnwind),
 		"msrReadMessage := " + decLeanString(f.msrReadMessage),
+		"byteFuncs := " + decLeanString(f.byteFuncs),
 	}
 	b.WriteString("  { " + strings.Join(vals, ",\n    ") + " }\n\n")
 	b.WriteString("end KV.Gen\n")
